@@ -37,6 +37,14 @@ def _apply(step, env, encode=None):
         return np.concatenate([x, env[step["y"]]])
     if op == "astype":
         return x.astype(step["dtype"])
+    if op == "iscalar":
+        # x op= scalar: the name gets the result; whether the old object is updated in place is the implementation's choice,
+        # but no OTHER variable (the array x was sliced from, a sibling slice) may change
+        import operator
+        iop = {"add": operator.iadd, "subtract": operator.isub, "multiply": operator.imul}[step["uf"]]
+        if isinstance(x, np.ndarray):
+            x = x.copy()         # the dense mirror must not alias (numpy slices are views; run-length slices are values)
+        return iop(x, step["s"])
     raise ValueError(op)
 
 
@@ -50,22 +58,28 @@ def gen_chain(rng, tier="quick", nsteps=None, dtype=None):
         init.append(np.resize(v, L).tolist())
     dense = [np.array(v).astype(dtype) for v in init]
     steps = []
+    dead_g = set()
     nsteps = nsteps or rng.randint(3, 7 if tier == "quick" else 12)
     tries = 0
     while len(steps) < nsteps and tries < nsteps * 8:
         tries += 1
-        xi = rng.randrange(len(dense)) if rng.random() < 0.4 else len(dense) - 1
+        alive = [i for i in range(len(dense)) if i not in dead_g]
+        xi = rng.choice(alive) if rng.random() < 0.4 else alive[-1]
         x = dense[xi]
-        op = rng.choice(["scalar", "scalar", "unary", "binary", "binary", "slice", "mask", "concat", "astype"])
+        op = rng.choice(["scalar", "scalar", "unary", "binary", "binary", "slice", "slice", "mask", "concat", "astype", "iscalar"])
         st = {"op": op, "x": xi}
         if op == "scalar":
             st.update(uf=rng.choice(BIN), s=rng.choice([2, 3, 1, 0, -1, 5, 2.5, True]), side=rng.choice("LR"))
             if x.dtype.kind == "u" and isinstance(st["s"], int) and st["s"] < 0:
                 st["s"] = 3
+        elif op == "iscalar":
+            if x.dtype.kind == "b":
+                continue
+            st.update(uf=rng.choice(["add", "subtract", "multiply"]), s=rng.choice([1, 2, 10, 3]))
         elif op == "unary":
             st["uf"] = rng.choice(UNARY)
         elif op in ("binary", "concat"):
-            same = [i for i, d in enumerate(dense) if len(d) == len(x)] if op == "binary" else list(range(len(dense)))
+            same = [i for i, d in enumerate(dense) if len(d) == len(x) and i not in dead_g] if op == "binary" else alive
             st["y"] = rng.choice(same)
             if op == "binary":
                 st["uf"] = rng.choice(BIN)
@@ -91,6 +105,8 @@ def gen_chain(rng, tier="quick", nsteps=None, dtype=None):
             continue
         dense.append(o.value)
         steps.append(st)
+        if op == "iscalar":
+            dead_g.add(xi)       # the old object is not used again: whether it was updated in place is the implementation's business
     return {"kind": "chain", "dtype": dtype, "init": init, "steps": steps, "red": rng.choice(REDS)}
 
 
@@ -102,6 +118,7 @@ def run_chain(case):
     # the decoded initial operands are the mirrors (-0.0 may have merged into 0.0 in an encoding)
     dense = [np.asarray(e.to_array()) for e in enc]
     tags = ["k:chain", "kind:" + dt.kind, "chain:%d" % len(case["steps"])]
+    dead = set()
     desc = lambda k: "chain on encoded %s %s: %s" % (dt, short(case["init"], 120), short(case["steps"][:k + 1], 400))
     for k, st in enumerate(case["steps"]):
         tags.append("step:" + st["op"])
@@ -136,6 +153,8 @@ def run_chain(case):
             return violated("%s: the result of step %d is not canonical: %s" % (desc(k), k, c), tags + ["not-canonical"])
         dense.append(o.value)
         enc.append(g)
+        if st["op"] == "iscalar":
+            dead.add(st["x"])
     # reductions / element reads of the last value
     last, dl = enc[-1], dense[-1]
     if len(dl):
@@ -155,6 +174,8 @@ def run_chain(case):
     # no step changed any earlier variable
     CTX.tick("c16:operands-unchanged")
     for i, (e, dd) in enumerate(zip(enc, dense)):
+        if i in dead:
+            continue         # the left operand of an in-place operator may or may not have been updated in place
         d = attempt(lambda: np.asarray(e.to_array()))
         if not d.ok or not same_array(d.value, dd, dtype=True):
             return violated("%s: variable %d was changed by a later step: it decodes to %s, was %s" % (desc(len(case["steps"])), i, repr(d) if not d.ok else short(d.value, 120), short(dd, 120)), tags + ["operand-mutated"])
